@@ -8,7 +8,7 @@
     wrap is written with `subU64`/`addU64`.
   * `hostrange_t *hr` array = `Array HRange` (tail push/pop O(1), as in C).
   * DEFECT SWITCHES: every place where the unchanged code deviates from the property text is ONE
-    definition marked `DEFECT Dnn` with the repaired form next to it (see Parse.lean, Iter.lean).
+    field of `Cfg` and ONE definition marked `DEFECT Dnn` that reads it (Parse.lean, Iter.lean).
 -/
 import PdshVerif.Gen.Hostlist
 
@@ -16,6 +16,39 @@ namespace PdshVerif.Hostlist
 open PdshVerif.Gen
 
 abbrev Str := List Char
+
+/-! ### which variant of the code is modelled
+
+  Every place where the unchanged code deviates from the property text is ONE switch.  The model
+  takes the switches as a parameter `cfg`; the theorems are stated for all `cfg` (with the
+  switches they need as hypotheses) and are therefore independent of /repo.  The driver runs the
+  model with `Cfg.probed` (Hostlist/Probed.lean), read off the real code on every run by the
+  behavioural probes of harness/consts/hostlist.c. -/
+structure Cfg where
+  /-- D15/D25: `_parse_single_range` refuses a bound of 2^64-1 (= every clamped number) -/
+  fixUlongMax : Bool
+  /-- D16: range bounds must be digit strings -/
+  fixDigits : Bool
+  /-- D17: `hostlist_next` prints the whole number -/
+  fixIterSuffix : Bool
+  /-- D18: the token itself (not the `cur_tok` copy) is pushed for bracket-less words -/
+  fixCurTok : Bool
+  /-- D22: brackets before / after the first pair of a token must balance -/
+  fixSuffixBal : Bool
+  /-- D23: names on the suffix path are not cut to 4095 bytes -/
+  fixHostBuf : Bool
+  /-- D24: `_hostrange_string` (`hostlist_nth`) prints the whole name -/
+  fixNth : Bool
+  deriving DecidableEq, Repr, Inhabited
+
+/-- the code as found -/
+def Cfg.unchanged : Cfg :=
+  { fixUlongMax := false, fixDigits := false, fixIterSuffix := false, fixCurTok := false,
+    fixSuffixBal := false, fixHostBuf := false, fixNth := false }
+/-- the code with findings/C01.patch, C15.patch (and D24 of C16.patch) applied -/
+def Cfg.repaired : Cfg :=
+  { fixUlongMax := true, fixDigits := true, fixIterSuffix := true, fixCurTok := true,
+    fixSuffixBal := true, fixHostBuf := true, fixNth := true }
 
 /-! ### `unsigned long` -/
 def U64 : Nat := 18446744073709551616
